@@ -26,6 +26,7 @@ Proof. destruct a; reflexivity. Qed.
 Inductive operand := Num (text : list chr) | Pct (text : list chr) (w : blanks) (ptxt : list chr)
   | Paren (po pc : list chr) (w1 : blanks) (e : expr) (w2 : blanks)
   | Call (name po pc : list chr) (a : args)                         (* f( ... ) *)
+  | Fact (first : list chr) (ms : list (blanks * bool * list chr))   (* a word, or a phrase: further words and numbers *)
 with expr := Chain (x : operand) (r : tail)
 with tail := TNil | TCons (wb : blanks) (a : arith) (atxt : list chr) (wa : blanks) (x : operand) (r : tail)
   | TTo (wb : blanks) (ttxt : list chr) (wa : blanks) (u : list chr) (r : tail)   (* `to` and a unit word *)
@@ -38,12 +39,18 @@ Scheme operand_mut := Induction for operand Sort Prop
   with more_mut := Induction for more Sort Prop.
 Combined Scheme syntax_mut from operand_mut, expr_mut, tail_mut, args_mut, more_mut.
 
+Definition more_toks (ms : list (blanks * bool * list chr)) : list tok :=
+  flat_map (fun m : blanks * bool * list chr => wst (fst (fst m)) ++ [((if snd (fst m) then NUMBER else WORD), snd m)]) ms.
+Definition more_trees (ms : list (blanks * bool * list chr)) : list Grammar.tree :=
+  flat_map (fun m : blanks * bool * list chr => wsT (fst (fst m)) ++ [Grammar.Node WORD [Tok (if snd (fst m) then NUMBER else WORD) (snd m)]]) ms.
+
 Fixpoint toks_operand (x : operand) : list tok :=
   match x with
   | Num t => [(NUMBER, t)]
   | Pct t w pt => (NUMBER, t) :: wst w ++ [(PERCENTAGE, pt)]
   | Paren po pc w1 e w2 => (OPEN_PAREN, po) :: wst w1 ++ toks_expr e ++ wst w2 ++ [(CLOSE_PAREN, pc)]
   | Call name po pc a => (WORD, name) :: (OPEN_PAREN, po) :: toks_args a ++ [(CLOSE_PAREN, pc)]
+  | Fact first ms => (WORD, first) :: more_toks ms
   end
 with toks_expr (e : expr) : list tok := match e with Chain x r => toks_operand x ++ toks_tail r end
 with toks_tail (r : tail) : list tok :=
@@ -80,6 +87,11 @@ Fixpoint trees_operand (x : operand) : list Grammar.tree :=
          | ANone w => Grammar.Node FN_ARGUMENTS [] :: wsT w
          | AOne w1 e m => Grammar.Node FN_ARGUMENTS (trees_expr w1 e ++ trees_more m) :: wsT (last_ws m)
          end ++ [Tok CLOSE_PAREN pc])]
+  | Fact first ms =>
+      match ms with
+      | [] => [Grammar.Node WORD [Tok WORD first]]
+      | _ => [Grammar.Node SENTENCE (Grammar.Node WORD [Tok WORD first] :: more_trees ms)]
+      end
   end
 with trees_expr (w : blanks) (e : expr) {struct e} : list Grammar.tree :=
   match e with
@@ -101,7 +113,7 @@ with trees_more (m : more) {struct m} : list Grammar.tree :=
   end.
 
 Fixpoint need_operand (x : operand) : nat :=
-  match x with Num _ | Pct _ _ _ => 1 | Paren _ _ _ e _ => S (need_expr e) | Call _ _ _ a => S (S (need_args a)) end
+  match x with Num _ | Pct _ _ _ | Fact _ _ => 1 | Paren _ _ _ e _ => S (need_expr e) | Call _ _ _ a => S (S (need_args a)) end
 with need_expr (e : expr) : nat := match e with Chain x r => S (Nat.max (need_operand x) (need_tail r)) end
 with need_tail (r : tail) : nat :=
   match r with TNil => 0 | TCons _ _ _ _ x r' => Nat.max (need_operand x) (need_tail r') | TTo _ _ _ _ r' => need_tail r' end
@@ -135,16 +147,29 @@ Proof. induction w as [|t w IH]; [reflexivity|]. change (count_ws (wst (t :: w))
 Lemma kind_at_end w : kind_at (wst w) (length w) = EOF.
 Proof. unfold kind_at. rewrite <- (wst_length w). now rewrite (proj2 (nth_error_None _ _) (le_n _)). Qed.
 Lemma kind_at_operand x l : kind_at (toks_operand x ++ l) 0 = NUMBER \/ kind_at (toks_operand x ++ l) 0 = OPEN_PAREN \/ kind_at (toks_operand x ++ l) 0 = WORD.
-Proof. destruct x; [left|left|right; left|right; right]; reflexivity. Qed.
+Proof. destruct x; [left|left|right; left|right; right|right; right]; reflexivity. Qed.
 
 Definition next_kind (rest : list tok) : kind := kind_at rest (count_ws rest).
-Definition follows (rest : list tok) : Prop := next_kind rest <> PERCENTAGE /\ next_kind rest <> NUMBER /\ next_kind rest <> WORD.
+Definition follows (rest : list tok) : Prop :=
+  next_kind rest <> PERCENTAGE /\ next_kind rest <> NUMBER /\ next_kind rest <> WORD /\ kind_at rest 0 <> OPEN_PAREN.
 
 Lemma next_kind_wst w t l : fst t <> WHITESPACE -> next_kind (wst w ++ t :: l) = fst t.
 Proof.
   intros H. unfold next_kind. rewrite count_ws_wst.
   assert (E : count_ws (t :: l) = 0) by (destruct t as [k x]; cbn in *; destruct k; congruence).
   rewrite E, Nat.add_0_r. apply kind_at_wst.
+Qed.
+
+Lemma follows_wst w t l : fst t <> WHITESPACE -> fst t <> PERCENTAGE -> fst t <> NUMBER -> fst t <> WORD -> fst t <> OPEN_PAREN ->
+  follows (wst w ++ t :: l).
+Proof.
+  intros H0 H1 H2 H3 H4. unfold follows. rewrite next_kind_wst by exact H0. repeat split; try assumption.
+  destruct w as [|x w]; [destruct t as [k tx]; cbn in *; exact H4|cbn; discriminate].
+Qed.
+Lemma follows_end w1 : follows (wst w1).
+Proof.
+  unfold follows, next_kind. rewrite count_ws_only, kind_at_end. repeat split; try discriminate.
+  destruct w1; cbn; discriminate.
 Qed.
 
 Lemma unit_none b F sk : kind_at b sk <> NUMBER -> kind_at b sk <> WORD -> unit_ sk (mkst b F) = (None, mkst b F).
@@ -156,7 +181,7 @@ Qed.
 Lemma number_operand fuel w t rest : 1 <= fuel -> follows rest ->
   OperandAt (value fuel) false (length w) (wst w ++ (NUMBER, t) :: rest) (wsT w) [Grammar.Node NUMBER [Tok NUMBER t]] rest.
 Proof.
-  intros Hf [H1 [H2 H3]] F. destruct fuel as [|fuel]; [lia|]. unfold operandf. cbn [value]. unfold value_body.
+  intros Hf [H1 [H2 [H3 _]]] F. destruct fuel as [|fuel]; [lia|]. unfold operandf. cbn [value]. unfold value_body.
   rewrite nth_kind_mk, kind_at_wst. cbn [fst]. rewrite bumps_mk, firstn_wst, skipn_wst.
   change (bump (mkst ((NUMBER, t) :: rest) ?G)) with (mkst rest (G ++ [Tok NUMBER t])).
   change (count_skip (mkst rest ?G)) with (count_ws rest). rewrite nth_kind_mk.
@@ -228,6 +253,64 @@ Proof.
   all: rewrite close_at_mk; rewrite app_length, <- app_assoc; reflexivity.
 Qed.
 
+(* a word or a phrase: what follows must neither be a word or a number (they would join the phrase) nor, directly, an opening
+   parenthesis (that would make it a function call) *)
+Definition word_follows (rest : list tok) : Prop := follows rest.
+
+Lemma words_loop_more : forall ms fuel n rest G, length (more_toks ms ++ rest) < fuel -> follows rest ->
+  words_loop fuel true (count_ws (more_toks ms ++ rest)) n (mkst (more_toks ms ++ rest) G)
+  = (count_ws rest, n + length ms, mkst rest (G ++ more_trees ms)).
+Proof.
+  induction ms as [|[[w b] t] ms IH]; intros fuel n rest G Hf [H1 [H2 [H3 H4]]].
+  - cbn [more_toks more_trees flat_map app length]. rewrite app_nil_r, Nat.add_0_r. destruct fuel as [|fuel]; [cbn in Hf; lia|].
+    cbn [words_loop]. rewrite nth_kind_mk. unfold next_kind in *.
+    destruct (kind_at rest (count_ws rest)); try congruence; reflexivity.
+  - change (more_toks ((w, b, t) :: ms)) with ((wst w ++ [((if b then NUMBER else WORD), t)]) ++ more_toks ms).
+    change (more_trees ((w, b, t) :: ms)) with ((wsT w ++ [Grammar.Node WORD [Tok (if b then NUMBER else WORD) t]]) ++ more_trees ms).
+    rewrite <- !app_assoc. cbn [app].
+    destruct fuel as [|fuel]; [cbn in Hf; lia|]. cbn [words_loop].
+    rewrite count_ws_wst.
+    repeat match goal with |- context[length w + count_ws ?B] => replace (count_ws B) with 0 by (destruct b; reflexivity) end.
+    rewrite Nat.add_0_r. rewrite nth_kind_mk, kind_at_wst. cbn [fst].
+    replace (kind_beq (if b then NUMBER else WORD) WORD || true && kind_beq (if b then NUMBER else WORD) NUMBER) with true by (destruct b; reflexivity).
+    rewrite bumps_mk, firstn_wst, skipn_wst. fold (wsT w).
+    match goal with |- context[bump_node WORD (mkst (?tk :: ?B) ?G0)] =>
+      change (bump_node WORD (mkst (tk :: B) G0)) with (mkst B (G0 ++ [Grammar.Node WORD [Tok (fst tk) (snd tk)]])) end.
+    cbn [fst snd]. change (count_skip (mkst ?B ?G0)) with (count_ws B).
+    rewrite (IH fuel (S n) rest); [|change (more_toks ((w, b, t) :: ms)) with ((wst w ++ [((if b then NUMBER else WORD), t)]) ++ more_toks ms) in Hf; rewrite !app_length in Hf; cbn [length] in Hf; rewrite app_length; lia|repeat split; assumption].
+    f_equal; [f_equal; cbn [length]; lia|]. unfold mkst. f_equal. now rewrite <- !app_assoc.
+Qed.
+
+Lemma fact_operand fuel first ms w rest : 1 <= fuel -> word_follows rest ->
+  OperandAt (value fuel) false (length w) (wst w ++ ((WORD, first) :: more_toks ms) ++ rest) (wsT w)
+    (match ms with
+     | [] => [Grammar.Node WORD [Tok WORD first]]
+     | _ => [Grammar.Node SENTENCE (Grammar.Node WORD [Tok WORD first] :: more_trees ms)]
+     end) rest.
+Proof.
+  intros Hf Hfo F. pose proof (proj2 (proj2 (proj2 Hfo))) as Hp. destruct fuel as [|fuel]; [lia|]. unfold operandf. cbn [value]. unfold value_body.
+  rewrite <- app_comm_cons. rewrite nth_kind_mk, kind_at_wst. cbn [fst].
+  rewrite bumps_mk, firstn_wst, skipn_wst. fold (wsT w).
+  change (bump_node WORD (mkst ((WORD, first) :: ?B) ?G)) with (mkst B (G ++ [Grammar.Node WORD [Tok WORD first]])).
+  rewrite nth_kind_mk.
+  assert (Hk : kind_beq (kind_at (more_toks ms ++ rest) 0) OPEN_PAREN = false).
+  { destruct ms as [|[[wm b] t] ms].
+    - cbn [more_toks flat_map app]. destruct (kind_at rest 0); try reflexivity. congruence.
+    - unfold more_toks. cbn [flat_map fst snd]. rewrite <- !app_assoc. destruct wm as [|x wm]; [destruct b|]; reflexivity. }
+  match goal with |- context[kind_beq (kind_at ?B 0) OPEN_PAREN] => replace (kind_beq (kind_at B 0) OPEN_PAREN) with false by (symmetry; exact Hk) end.
+  change (buf (mkst ?B ?G)) with B. change (count_skip (mkst ?B ?G)) with (count_ws B).
+  match goal with |- context[words_loop ?f true ?sk 0 ?st] =>
+    replace (words_loop f true sk 0 st) with (count_ws rest, 0 + length ms, mkst rest (((F ++ wsT w) ++ [Grammar.Node WORD [Tok WORD first]]) ++ more_trees ms))
+      by (symmetry; exact (words_loop_more ms _ 0 rest _ (Nat.lt_succ_diag_r _) Hfo)) end.
+  change (checkpoint (mkst ?B ?G)) with (length G). cbn [Nat.add].
+  destruct ms as [|m ms].
+  - cbn [length Nat.ltb Nat.leb more_trees flat_map]. rewrite app_nil_r, app_length, <- app_assoc. reflexivity.
+  - cbn [length]. replace (0 <? S (length ms)) with true by reflexivity.
+    replace (((F ++ wsT w) ++ [Grammar.Node WORD [Tok WORD first]]) ++ more_trees (m :: ms))
+      with ((F ++ wsT w) ++ (Grammar.Node WORD [Tok WORD first] :: more_trees (m :: ms))) by now rewrite <- !app_assoc.
+    rewrite close_at_mk. rewrite app_length, <- app_assoc. reflexivity.
+Qed.
+
 Definition operand_spec (fuel : nat) (x : operand) : Prop := forall w rest, follows rest ->
   OperandAt (value fuel) false (length w) (wst w ++ toks_operand x ++ rest) (wsT w) (trees_operand x) rest.
 Definition expr_spec (fuel : nat) (e : expr) : Prop := forall w rest F, follows rest -> unit_follows rest -> op_of (next_kind rest) = None ->
@@ -252,7 +335,7 @@ Proof.
   { rewrite count_ws_wst. destruct e as [x r]. cbn [toks_expr]. rewrite <- app_assoc, count_ws_operand. lia. }
   rewrite Hc.
   assert (Hn : next_kind rest' = CLOSE_PAREN) by (unfold rest'; now rewrite next_kind_wst).
-  rewrite (He w1 rest' _); [|unfold follows; rewrite Hn; repeat split; discriminate|apply unit_follows_close|now rewrite Hn].
+  rewrite (He w1 rest' _); [|unfold rest'; apply follows_wst; discriminate|apply unit_follows_close|now rewrite Hn].
   assert (Hc2 : count_ws rest' = length w2) by (unfold rest'; rewrite count_ws_wst; cbn; lia).
   rewrite Hc2. unfold eat. cbn [kinds_match]. rewrite nth_kind_mk. unfold rest' at 1. rewrite kind_at_wst. cbn [fst kind_beq andb].
   rewrite bumps_mk. cbn [length]. unfold rest'.
@@ -306,9 +389,9 @@ Lemma more_rest_ok m pc rest :
   follows (more_rest m pc rest) /\ unit_follows (more_rest m pc rest) /\ op_of (next_kind (more_rest m pc rest)) = None.
 Proof.
   unfold more_rest. destruct m as [wl|wc ct w1 e m]; cbn [toks_more].
-  - unfold follows. rewrite next_kind_wst by discriminate. cbn [fst]. repeat split; try discriminate. apply unit_follows_close.
-  - rewrite <- app_assoc, <- app_comm_cons. unfold follows. rewrite next_kind_wst by discriminate. cbn [fst].
-    repeat split; try discriminate. unfold unit_follows. destruct wc as [|x [|y wc]]; cbn; try exact I; split; discriminate.
+  - split; [apply follows_wst; discriminate|]. split; [apply unit_follows_close|]. now rewrite next_kind_wst.
+  - rewrite <- app_assoc, <- app_comm_cons. split; [apply follows_wst; discriminate|]. split; [|now rewrite next_kind_wst].
+    unfold unit_follows. destruct wc as [|x [|y wc]]; cbn; try exact I; split; discriminate.
 Qed.
 
 Lemma args_from_arg fuel : forall m, more_ok fuel m -> forall lf A w e F0 pc rest, more_size m < lf -> expr_spec fuel e ->
@@ -376,10 +459,9 @@ Qed.
 (* ---- chains ---- *)
 Lemma follows_tail r rest : follows rest -> follows (toks_tail r ++ rest).
 Proof.
-  intros H. destruct r as [|wb a txt wa x r'|wb txt wa u r']; [exact H| |]; cbn [toks_tail]; rewrite <- app_assoc, <- app_comm_cons;
-    unfold follows.
-  - rewrite next_kind_wst by (destruct a; discriminate). cbn [fst]. destruct a; repeat split; discriminate.
-  - rewrite next_kind_wst by discriminate. cbn [fst]. repeat split; discriminate.
+  intros H. destruct r as [|wb a txt wa x r'|wb txt wa u r']; [exact H| |]; cbn [toks_tail]; rewrite <- app_assoc, <- app_comm_cons.
+  - apply follows_wst; destruct a; discriminate.
+  - apply follows_wst; discriminate.
 Qed.
 Lemma unit_follows_tail r rest : tight_ok r -> unit_follows rest -> unit_follows (toks_tail r ++ rest).
 Proof.
@@ -492,6 +574,7 @@ Proof.
     apply paren_operand. apply IHe; [lia|exact Hw].
   - intros name po pc a IHa fuel Hf Hw. cbn [need_operand] in Hf. destruct fuel as [|[|fuel]]; [lia|lia|].
     apply call_operand. apply IHa; [lia|exact Hw].
+  - intros first ms fuel Hf _ w rest Hfo. cbn [toks_operand trees_operand]. apply fact_operand; [exact Hf|exact Hfo].
   - intros x IHx r IHr fuel Hf [Hwx Hwr]. cbn [need_expr] in Hf. destruct fuel as [|fuel]; [lia|].
     apply chain_expr; [apply IHx; [lia|exact Hwx]|exact Hwr|apply IHr; [lia|exact Hwr]].
   - intros fuel _ _. exact I.
@@ -515,6 +598,7 @@ Proof.
   - intros t wp pt. cbn. lia.
   - intros po pc w1 e IHe w2. cbn [need_operand toks_operand length]. rewrite !app_length. cbn [length]. lia.
   - intros name po pc a IHa. cbn [need_operand toks_operand length]. rewrite !app_length. cbn [length]. lia.
+  - intros first ms. cbn. lia.
   - intros x IHx r IHr. cbn [need_expr toks_expr]. rewrite app_length. lia.
   - cbn. lia.
   - intros wb a txt wa x IHx r IHr. cbn [need_tail toks_tail]. rewrite !app_length. cbn [length]. rewrite !app_length. lia.
@@ -551,15 +635,15 @@ Proof.
   rewrite Hc. rewrite root_step. rewrite nth_kind_mk.
   assert (Hk : kind_at toks (length w0) = NUMBER \/ kind_at toks (length w0) = OPEN_PAREN \/ kind_at toks (length w0) = WORD).
   { unfold toks. destruct e as [x r]. cbn [toks_expr]. rewrite <- app_assoc.
-    destruct x as [t|t wp pt|po pc wa e' wb|name po pc a]; cbn [toks_operand]; rewrite <- ?app_comm_cons; rewrite kind_at_wst;
-      [left|left|right; left|right; right]; reflexivity. }
+    destruct x as [t|t wp pt|po pc wa e' wb|name po pc a|first ms]; cbn [toks_operand]; rewrite <- ?app_comm_cons; rewrite kind_at_wst;
+      [left|left|right; left|right; right|right; right]; reflexivity. }
   assert (Hend : next_kind (wst w1) = EOF) by (unfold next_kind; rewrite count_ws_only; apply kind_at_end).
   assert (Hop : operation (2 * length (buf (mkst toks [])) + 2) (length w0) (mkst toks [])
                 = Some (Some (count_ws (wst w1)), mkst (wst w1) ([] ++ trees_expr w0 e))).
   { apply (proj1 (proj2 all_specs) e).
     - pose proof (proj1 (proj2 need_bound) e). change (buf (mkst toks [])) with toks. unfold toks. rewrite !app_length. lia.
     - exact Hwf.
-    - unfold follows. rewrite Hend. repeat split; discriminate.
+    - apply follows_end.
     - apply unit_follows_end.
     - now rewrite Hend. }
   rewrite count_ws_only in Hop. cbn [app] in Hop.
